@@ -41,6 +41,7 @@ type vcAttr struct {
 	Age       int      `json:"age"`
 	About     string   `json:"about"`   // administrative record: the catalogue bundle the status report is about ("" = some unknown bundle)
 	RKind     string   `json:"rkind"`   // received | forwarded | delivered | deleted
+	Anon      bool     `json:"anon"`    // submitted with source dtn:none (must-not-fragment set, no report requests)
 	OldTs     bool     `json:"oldts"`   // the creation time lies ten minutes in the past
 	RptNone   bool     `json:"rptnone"` // report-to is dtn:none although reports are requested
 	UnkMore   int      `json:"unkmore"` // number of further unsupported blocks (same flags) next to the first, at most 2
@@ -444,6 +445,9 @@ func (w *vcWorld) build(name string) bpv7.Bundle {
 	src := "dtn://src-" + name + "/"
 	if a.Origin == "app" {
 		src = "dtn://node/app"
+		if a.Anon {
+			src = "dtn:none"
+		}
 	}
 	var dst string
 	switch a.Dst {
@@ -495,6 +499,9 @@ func (w *vcWorld) build(name string) bpv7.Bundle {
 	}
 	if a.Time {
 		flags |= bpv7.RequestStatusTime
+	}
+	if a.Anon {
+		flags |= bpv7.MustNotFragmented
 	}
 	// what an application writes into the sequence field is its own business (the node assigns the number): bundles of one
 	// (source, time) group arrive with different values there, the first of the catalogue with 0
